@@ -313,6 +313,54 @@ def lc_cases(run, rng, k):
         shutil.rmtree(L['root'], ignore_errors=True)
 
 
+def big_superslab_case(run, rng):
+    """A superslab with more halos than any internal block size of the compaction (2^15, 2^16): masks that drop a few early
+    rows and keep long runs afterwards, so that every kept row has to move."""
+    H = 70001
+    truth = gen_catalog.make_tree(rng, slab_inds=[0, 1], halos_per_slab=[H, 9], cleaned_away_prob=0.05, zero_part_prob=0.5, max_np=3, merge_prob=0.1, smallratio=True)
+    try:
+        for cleaned, sub, fields in ((True, False, ['N', 'id', 'x_com']), (False, dict(A=True, pid=True), ['id', 'N']), (True, dict(B=True, pos=True), 'DEFAULT_FIELDS')):
+            base_kw = dict(cleaned=cleaned, subsamples=sub, fields=fields)
+            desc0 = dict(tree='big-superslab', halos_per_slab=[H, 9], cleaned=cleaned, subsamples=repr(sub), fields=fields)
+            run.ev()
+            run.count('loads')
+            full, err = catoracle.load(truth['path'], **base_kw)
+            if err is not None:
+                run.violation('load-fails-' + type(err).__name__, dict(error=str(err)[:300], **desc0))
+                continue
+            full_rows = table_rows(full)
+            m_first = np.ones(H, bool)
+            m_first[:3] = False
+            m_one = np.ones(H, bool)
+            m_one[40000] = False
+            m_block = np.ones(H, bool)
+            m_block[5] = False
+            m_block[32768 + 7] = False  # a dropped row in the first two blocks of 2^15, none in the third
+            m_tail = np.arange(H) >= 100
+            for label, m0 in (('drop-first-3', m_first), ('drop-row-40000', m_one), ('drops-in-two-blocks', m_block), ('keep-from-100', m_tail), ('p90', rng.random(H) < 0.9)):
+                masks = [m0, np.ones(9, bool)]
+                desc = dict(desc0, mask=label, kept=[int(m.sum()) for m in masks])
+                run.progress(desc)
+                run.ev()
+                run.count('loads')
+                got, err = catoracle.load(truth['path'], filter_func=MaskFilter(masks), **base_kw)
+                if err is not None:
+                    run.violation('filter-load-fails-' + type(err).__name__, dict(error=str(err)[:300], **desc))
+                    continue
+                run.nt(('big-superslab', cleaned, repr(sub), label))
+                allmask = np.concatenate(masks)
+                if len(got.halos) != int(allmask.sum()):
+                    run.violation('filter-row-count', dict(rows=len(got.halos), expected=int(allmask.sum()), **desc))
+                    continue
+                if compare_halos(run, got.halos, {cn: v[allmask] for cn, v in full_rows.items()}, dict(desc, check='filter'), 'filter-rows-differ'):
+                    continue
+                AB = resolved_AB(sub)
+                if AB:
+                    catoracle.check_subsamples(run, got, truth, [0, 1], cleaned, AB, masks=masks, desc=dict(desc, check='filter'), key_prefix='filter-subsample')
+    finally:
+        shutil.rmtree(truth['root'], ignore_errors=True)
+
+
 def check(run):
     catoracle.fast_io()
     catoracle.install_contracts()
@@ -324,6 +372,7 @@ def check(run):
             return
     for k in range(3 if run.quick else 30):
         lc_cases(run, rng, k)
+    big_superslab_case(run, run.rng(4))
     catoracle.report_contracts(run)
     run.sample(dict(files='list_reversed', mask='none_in_one', cleaned=True, subsamples="{'A': True, 'pid': True}", fields=['N', 'id', 'x_com']))
     for kind in ('all', 'none'):
